@@ -6,11 +6,14 @@ import (
 	"fmt"
 	"io"
 	"os"
+	"strings"
 	"sync"
 
 	"github.com/ipfs/go-cid"
 	"github.com/ipfs/go-unixfsnode/data/builder"
 	quickbuilder "github.com/ipfs/go-unixfsnode/data/builder/quick"
+	dagpb "github.com/ipld/go-codec-dagpb"
+	"github.com/ipld/go-ipld-prime"
 	cidlink "github.com/ipld/go-ipld-prime/linking/cid"
 
 	"verif/harness/core"
@@ -381,7 +384,93 @@ func cleanupFixture() {
 	}
 }
 
+// c10SameSlice: the caller's entry slice is an input, not scratch space. The
+// same slice handed to a directory builder twice gives the same outcome twice
+// (same link and size, or an error both times) and still holds the entries it
+// held: entry lists with a link-less entry (which a builder may skip or
+// refuse) at every position, repeated names, and the shard-threshold sized
+// list are each built three times from one slice.
+func c10SameSlice(r *core.Run) {
+	s := store.New()
+	leaves := gen.Leaves(s, []string{"a", "b", "c", "d", "e"})
+	mk := func(names []string, nilAt int) []dagpb.PBLink {
+		var out []dagpb.PBLink
+		for i, n := range names {
+			var l ipld.Link
+			sz := int64(0)
+			if i != nilAt {
+				e := leaves[i%len(leaves)]
+				l, sz = cidlink.Link{Cid: e.Cid}, int64(e.Tsize)
+			}
+			ent, err := builder.BuildUnixFSDirectoryEntry(n, sz, l)
+			if err != nil {
+				r.InternalError("BuildUnixFSDirectoryEntry: " + err.Error())
+				return nil
+			}
+			out = append(out, ent)
+		}
+		return out
+	}
+	render := func(es []dagpb.PBLink) string {
+		var parts []string
+		for _, e := range es {
+			h := "nil"
+			if e.Hash.Link() != nil {
+				h = e.Hash.Link().String()
+			}
+			parts = append(parts, fmt.Sprintf("%s->%s", e.Name.Must().String(), h))
+		}
+		return strings.Join(parts, " ")
+	}
+	type build struct {
+		name string
+		f    func(es []dagpb.PBLink, ls *ipld.LinkSystem) (ipld.Link, uint64, error)
+	}
+	builds := []build{
+		{"BuildUnixFSDirectory", builder.BuildUnixFSDirectory},
+		{"BuildUnixFSShardedDirectory(16)", func(es []dagpb.PBLink, ls *ipld.LinkSystem) (ipld.Link, uint64, error) {
+			return builder.BuildUnixFSShardedDirectory(16, 0x22, es, ls)
+		}},
+	}
+	lists := [][]string{{"a", "b", "c", "d"}, {"d", "c", "b", "a"}, {"a", "b", "a", "c"}, {"a"}, {}}
+	n := 0
+	for _, names := range lists {
+		for nilAt := -1; nilAt < len(names); nilAt++ {
+			for _, b := range builds {
+				es := mk(names, nilAt)
+				before := render(es)
+				var outcomes []string
+				for rep := 0; rep < 3; rep++ {
+					var l ipld.Link
+					var sz uint64
+					var err error
+					if p, pv := core.Guard(func() { l, sz, err = b.f(es, store.New().LinkSystem()) }); p {
+						outcomes = append(outcomes, fmt.Sprintf("panic: %v", pv))
+						continue
+					}
+					if err != nil {
+						outcomes = append(outcomes, "error")
+					} else {
+						outcomes = append(outcomes, fmt.Sprintf("%v/%d", l, sz))
+					}
+					n++
+				}
+				desc := fmt.Sprintf("%s over entries [%s] built three times from one slice", b.name, before)
+				if outcomes[0] != outcomes[1] || outcomes[1] != outcomes[2] {
+					r.Violate("nondeterministic-build same-slice", fmt.Sprintf("%s: outcomes %v", desc, outcomes), nil)
+				}
+				if after := render(es); after != before {
+					r.Violate("caller-slice-modified", fmt.Sprintf("%s: afterwards the caller's slice reads [%s]", desc, after), nil)
+				}
+			}
+		}
+	}
+	r.Evaluations.Add(int64(n))
+	r.Set("same_slice_builds", n)
+}
+
 func runC10(r *core.Run) {
+	c10SameSlice(r)
 	// a build's result does not depend on what else is being built through the
 	// same LinkSystem at the same time (every interleaving at storage operations)
 	concurrentBuilds(r, func([2]c11Build) bool { return true })
